@@ -45,6 +45,7 @@ type c14Op struct {
 	I    int    `json:"i"`
 	X    int    `json:"x"`
 	Via  int    `json:"via"`
+	How  string `json:"how"`
 	Err  string `json:"err"`
 }
 type c14Rec struct {
@@ -114,7 +115,14 @@ func c14Steps(rec *c14Rec) (steps []string, reads []string, want []string, sfx s
 		case "addr":
 			np++
 			pkind[np] = kinds[op.B]
-			steps = append(steps, fmt.Sprintf("p%s_%d := &%s", sfx, np, name(op.B, op.I)))
+			switch op.How {
+			case "func":
+				steps = append(steps, fmt.Sprintf("func ap%s_%d() *%s { return &%s }; p%s_%d := ap%s_%d()", sfx, np, c14TypeName(kinds[op.B]), name(op.B, op.I), sfx, np, sfx, np))
+			case "block":
+				steps = append(steps, fmt.Sprintf("func ap%s_%d() *%s { { y := 1; _ = y; { z := y + 1; _ = z; return &%s } }; panic(\"unreachable\") }; p%s_%d := ap%s_%d()", sfx, np, c14TypeName(kinds[op.B]), name(op.B, op.I), sfx, np, sfx, np))
+			default:
+				steps = append(steps, fmt.Sprintf("p%s_%d := &%s", sfx, np, name(op.B, op.I)))
+			}
 		case "set":
 			if op.Via == 0 {
 				steps = append(steps, fmt.Sprintf("%s = %s", name(op.B, op.I), c14Lit(kinds[op.B], op.X)))
@@ -184,7 +192,7 @@ func c14Interesting(rec *c14Rec) bool {
 func c14Key(rec *c14Rec) string {
 	var b strings.Builder
 	for _, op := range rec.Hist {
-		fmt.Fprintf(&b, "%s.%d.%s.%d.%d.%d;", op.Op, op.N, op.Kind, op.B, op.I, op.Via)
+		fmt.Fprintf(&b, "%s.%d.%s.%d.%d.%d.%s;", op.Op, op.N, op.Kind, op.B, op.I, op.Via, op.How)
 	}
 	return b.String()
 }
@@ -199,6 +207,9 @@ func c14Gate(c *core.Ctx, recs []*c14Rec) error {
 			switch {
 			case strings.HasPrefix(s, "var "):
 				decls.WriteString(s + "\n")
+			case strings.HasPrefix(s, "func ap"):
+				k := strings.LastIndex(s, "; p")
+				decls.WriteString(s[:k] + "\nvar " + strings.Replace(s[k+2:], ":=", "=", 1) + "\n")
 			case strings.Contains(s, ":= &"):
 				decls.WriteString("var " + strings.Replace(s, ":=", "=", 1) + "\n")
 			default:
